@@ -76,6 +76,8 @@ pub fn run() {
     let mut idx = 0usize;
     let mut base_fds = 0usize;
     for line in stdin.lock().lines() {
+        // a main thread stuck for good (a receive on the wrong socket, say) ends the process instead of outlasting the caller
+        unsafe { libc::alarm(120) };
         let line = line.unwrap();
         let t: Vec<&str> = line.split_whitespace().collect();
         if t.is_empty() {
